@@ -115,7 +115,8 @@ class KDMixWrapper(KDWrapper):
 
             # mixup
             x_lamb = lamb.view(*[1] * x.ndim)
-            x.mul_(x_lamb).add_(x2.mul_(1. - x_lamb))
-            cls.mul_(lamb).add_(cls2.mul_(1. - lamb))
+            # out-of-place: the loaded samples can be the tensors an in-memory dataset stores
+            x = x * x_lamb + x2 * (1. - x_lamb)
+            cls = cls * lamb + cls2 * (1. - lamb)
 
         return x, cls
